@@ -152,6 +152,7 @@ func ruleC01(w *World, r *Report) {
 	}
 
 	ruleC01Secondary(w, r)
+	ruleNoDurationSquared(w, r, "R01.2.DUR", funcs)
 	ruleC01Shape(w, r)
 	ruleC01Reader(w, r)
 	ruleC01Labels(w, r)
